@@ -1208,11 +1208,13 @@ class Tree(DirectedGraph):
             # check if root_vertex is valid
             self._check_vertex(root_vertex)
             # check if the tree is properly defined given the root
-            if not np.allclose(
-                csgraph.breadth_first_tree(
-                    self.adjacency_matrix, root_vertex, directed=True
-                ).nonzero(),
-                self.adjacency_matrix.nonzero(),
+            # (compare the edge sets: the order in which nonzero() lists the
+            # entries of a row is not defined)
+            bfs_tree = csgraph.breadth_first_tree(
+                self.adjacency_matrix, root_vertex, directed=True
+            )
+            if set(zip(*bfs_tree.nonzero())) != set(
+                zip(*self.adjacency_matrix.nonzero())
             ):
                 raise ValueError(
                     "The combination of adjacency matrix and root "
